@@ -2,16 +2,73 @@
 import dns
 import hostile
 
-SLICE = "OBSERVE (every public observer applied to every part of a parsed packet, under catch_unwind)"
+SLICE = ("OBSERVE (every public observer applied to every part of a parsed packet, under catch_unwind); SHOW (the text Display writes "
+         "for labels, character-strings, names and the names of parsed packets, against the model's lossy renderer)")
 RULE = ("parser-accepted packets biased to labels and character-strings holding invalid UTF-8 (lone continuation bytes, overlongs, "
         "surrogates, > U+10FFFF, truncated sequences), NUL, dots, backslashes, empty and maximal lengths, over TXT HINFO ISDN NAPTR "
         "CAA and name-bearing types; observers: Debug / Display of packet, names, labels, records, RDATA; clone; into_owned; Hash; "
         "PartialEq; TXT attributes / long_attributes / String::try_from; CharacterString -> String; match_qtype / match_qclass. "
-        "Oracle: no panic; the number of conversions reporting an error equals the number of non-UTF-8 texts. non-trivial = accepted")
+        "Oracle: no panic; the number of conversions reporting an error equals the number of non-UTF-8 texts; what Display writes is "
+        "well-formed UTF-8 and equals an independent maximal-subpart U+FFFD rendering of the bytes (labels joined by dots for names); "
+        "SHOW inputs: every single byte, byte strings over a 27-letter alphabet of UTF-8 class boundaries (exhaustive to length 3 in the "
+        "thorough tier), well-formed text with one byte damaged. non-trivial = accepted")
+
+
+# one representative of every UTF-8 byte class and of both ends of every second-byte range (Unicode table 3-7)
+ALPHA = [0x00, 0x2e, 0x41, 0x7f, 0x80, 0x8f, 0x90, 0x9f, 0xa0, 0xbf, 0xc0, 0xc1, 0xc2, 0xdf, 0xe0, 0xe1, 0xec, 0xed, 0xee, 0xef,
+         0xf0, 0xf1, 0xf3, 0xf4, 0xf5, 0xf8, 0xff]
+TEXTS = ["café", "€uro", "😀!", "日本語", "\u0800\uffff\U00010000\U0010ffff", "a\u07ffb", "\ud7ff\ue000"]
+
+
+def hx(b):
+    return b.hex() or "-"
+
+
+def weird(rng):
+    r = rng.below(4)
+    if r == 0:
+        return bytes(rng.choice(ALPHA) for _ in range(1 + rng.below(6)))
+    if r == 1:
+        # well-formed text with one byte damaged, dropped or inserted
+        t = bytearray(rng.choice(TEXTS).encode())
+        i = rng.below(len(t))
+        k = rng.below(3)
+        if k == 0:
+            t[i] = rng.choice(ALPHA)
+        elif k == 1:
+            del t[i]
+        else:
+            t.insert(i, rng.choice(ALPHA))
+        return bytes(t)
+    if r == 2:
+        return rng.choice(TEXTS).encode()
+    return rng.bytes(1 + rng.below(8))
+
+
+def show_cases(rng, tier):
+    out = ["SHOW L %02x" % b for b in range(256)] + ["SHOW C -", "SHOW N", "SHOW L -", "SHOW C " + "c3" * 128, "SHOW C " + "e2" * 255]
+    if tier != "quick":
+        import itertools
+        for n in (2, 3):
+            for t in itertools.product(ALPHA, repeat=n):
+                out.append("SHOW C " + bytes(t).hex())
+    for _ in range(1500 if tier == "quick" else 20000):
+        k = rng.below(4)
+        if k == 0:
+            out.append("SHOW L " + hx(weird(rng)[:63]))
+        elif k == 1:
+            out.append("SHOW C " + hx((weird(rng) * rng.choice([1, 1, 2, 30]))[:255]))
+        else:
+            out.append("SHOW N " + " ".join(hx(rng.choice([weird(rng)[:63], b"local", b"_tcp", b"a.b", b""])) for _ in range(rng.below(5))))
+    for _ in range(500 if tier == "quick" else 5000):
+        pk = hostile.hostile_packet(rng)
+        b, _ = dns.encode_marked(pk, rng, rng.choice([0, 0, 3]))
+        out.append("SHOW P " + b.hex())
+    return out
 
 
 def cases(rng, tier):
-    out = []
+    out = show_cases(rng, tier)
     for _ in range(3000 if tier == "quick" else 30000):
         p = hostile.hostile_packet(rng)
         b, _ = dns.encode_marked(p, rng, rng.choice([0, 0, 3]))
@@ -24,16 +81,47 @@ def normalize(case, out):
 
 
 def classify(case, out):
+    t = case.split()
+    if t[0] == "SHOW":
+        if t[1] == "P" or out in ("ERR", "BADCASE", "DIFF", "HANG", "CRASH") or out.startswith("PANIC"):
+            return "SHOW-" + t[1] + "-" + out.split(" ")[0][:5]
+        changed = (out if out != "-" else "") != "".join(x if x != "-" else "" for x in ["2e".join(t[2:])]) if t[1] != "N" else None
+        if t[1] == "N":
+            changed = b".".join(_bytes(x) for x in t[2:]) != _bytes(out)
+        return "SHOW-" + t[1] + ("-replaced" if changed else "-verbatim")
     return out.split(" ")[0]
 
 
 def nontrivial(case, out):
-    return out.startswith("OK")
+    return out.startswith("OK") or (case.startswith("SHOW") and out not in ("ERR", "BADCASE"))
+
+
+def _bytes(t):
+    return b"" if t == "-" else bytes.fromhex(t)
 
 
 def oracle(case, out):
     if out.startswith("PANIC") or out in ("HANG", "CRASH"):
-        return "%s while inspecting the packet parsed from %s" % (out, case.split()[1][:300])
+        return "%s while inspecting %s" % (out, case[:300])
+    t = case.split()
+    if t[0] == "SHOW" and t[1] in ("L", "C", "N") and out not in ("ERR", "BADCASE"):
+        if out == "DIFF":
+            return "to_string() and write!() disagree for " + case[:200]
+        try:
+            got = _bytes(out)
+            got.decode("utf-8")
+        except ValueError:
+            return "Display wrote something that is not UTF-8 text: %s for %s" % (out[:120], case[:200])
+        parts = [_bytes(x) for x in t[2:]]
+        want = ".".join(x.decode("utf-8", "replace") for x in parts).encode()
+        if got != want:
+            return "Display wrote %s where the lossy rendering of the bytes is %s (%s)" % (out[:120], want.hex()[:120], case[:200])
+    if t[0] == "SHOW" and t[1] == "P" and out.startswith("OK"):
+        for x in out.split()[1:]:
+            try:
+                _bytes(x).decode("utf-8")
+            except ValueError:
+                return "Display of a parsed name is not UTF-8 text: %s (%s)" % (x[:120], case[:200])
     return None
 
 
